@@ -250,19 +250,11 @@ def _coincidence_templates():
     t.append("message MC0 {\n    uint8 x = 1\n}\n" + "".join("message MC%d {\n    MC%d x = 1\n}\n" % (k, k - 1) for k in range(1, 600)))
     t.append("message AMC0 {\n    uint8 x = 1\n}\n" + "".join("message AMC%d {\n    AMC%d[1] x = 1\n}\n" % (k, k - 1) for k in range(1, 300)))
     t.append("const CC0 = 1\n" + "".join("const CC%d = CC%d + 1\n" % (k, k - 1) for k in range(1, 1500)) + "message UsesCC {\n    byte[CC1499] b = 1\n}")
-    # reference DAGs with fan-out (round 9): every level refers to the level below TWICE (or 255
-    # times through an array), so any walk that is not memoised -- or whose memo misses -- costs
-    # time exponential in the number of levels although the text is tiny. With zero-bit leaves the
-    # 65535-bit size limit never stops the chain.
-    for n in (24, 40):
-        t.append("message ZD0 {}\n" + "".join("message ZD%d {\n    ZD%d a = 1\n    ZD%d b = 2\n}\n" % (k, k - 1, k - 1) for k in range(1, n + 1)))
-    t.append("message ZA0 {}\n" + "".join("message ZA%d {\n    ZA%d[2] a = 1\n    ZA%d[3] b = 7\n}\n" % (k, k - 1, k - 1) for k in range(1, 31)))
-    t.append("message ZE0 {}\ntype ZE1 = ZE0[255]\n" + "".join("type ZE%d = ZE%d[255]\n" % (k, k - 1) for k in range(2, 9)) + "message UsesZE {\n    ZE8 x = 1\n    bool t = 2\n}")
-    t.append("message ZX0' {}\n" + "".join("message ZX%d' {\n    ZX%d a = 1\n    ZX%d b = 2\n}\n" % (k, k - 1, k - 1) for k in range(1, 12)))
-    t.append("message BD0 {\n    bool x = 1\n}\n" + "".join("message BD%d {\n    BD%d a = 1\n    BD%d b = 2\n}\n" % (k, k - 1, k - 1) for k in range(1, 15)))
-    t.append("message ZN0 {\n    message ZNI {}\n    ZNI i = 1\n    ZNI j = 2\n}\n" + "".join("message ZN%d {\n    ZN%d a = 1\n    ZN0.ZNI b = 2\n    ZN%d c = 3\n}\n" % (k, k - 1, k - 1) for k in range(1, 26)))
-    t.append("const DD0 = 1\n" + "".join("const DD%d = DD%d + DD%d\n" % (k, k - 1, k - 1) for k in range(1, 200)) + "const DDX = DD199 / DD198")
-    t.append("enum ZEN : uint1 {}\nmessage ZM0 {\n}\n" + "".join("message ZM%d {\n    ZM%d[1] a = 1\n    ZM%d b = 2\n    ZM%d[1] c = 3\n}\n" % (k, k - 1, k - 1, k - 1) for k in range(1, 20)))
+    # (Round 9: reference DAGs with fan-out -- every level refers to the level below twice, or 255
+    # times through an array, with zero-bit leaves -- were tried as templates here. They found a
+    # genuine defect (repaired by 8f20487, regressions/C09-8f20487-*), but confirming every hang at
+    # 20x the limits made the quick tier take more than 15 minutes, so they are NOT part of the
+    # seeded workload; see DESIGN.md section 12, round 9.)
     t.append("const PAREN = " + "(" * 1200 + "1" + ")" * 1200)
     t.append("const SUM = " + " + ".join(["1"] * 5000))
     t.append("message SameLineA {\n    bool x = 1\n} message SameLineB {\n    bool y = 1\n}")
